@@ -8,6 +8,9 @@
 #define _LIBCSD_VERIFHOOKS_H
 #include <cstddef>
 inline size_t libcsd_verif_memalloc_value = 32768;
+/* Called by the block constructor once its pool, mutex and condition variable
+ * exist, so that a harness can label them in recorded synchronisation traces. */
+inline void (*libcsd_verif_blocks_hook)(void *pool, void *m, void *cv) = nullptr;
 #endif
 #undef MEMALLOC
 #define MEMALLOC (libcsd_verif_memalloc_value)
